@@ -201,12 +201,13 @@ const REAL_TYPES: [&str; 12] = [
 ];
 
 fn real_type_units() -> Vec<(String, CompileUnit)> {
-    let mut out = vec![];
-    for (i, ty) in REAL_TYPES.iter().enumerate() {
+    let mut out: Vec<(String, CompileUnit)> = vec![];
+    for (k, ty) in REAL_TYPES.iter().enumerate() {
         if ty.contains("fn()") {
             continue; // not expressible in the Kiki type syntax
         }
-        let other = REAL_TYPES[(i + 1) % REAL_TYPES.len()];
+        let i = out.len(); // file names carry the unit index, so that rustc errors can be attributed
+        let other = REAL_TYPES[(k + 1) % REAL_TYPES.len()];
         let other = if other.contains("fn()") { "u64" } else { other };
         let src = grammar_for(ty, other);
         if let Gen::Ok(text) = generate(&src) {
